@@ -348,6 +348,17 @@ Fixpoint node_consts (n : node) : nat :=
   end.
 Definition nodes_consts (l : list node) : nat := fold_right (fun x a => node_consts x + a) O l.
 
+(* the number of #if nodes (nested ones included) and the bound on the number of rounds of the loop
+   (Proofs/CondTotalP.v: every round but the last splices an #if or makes a constant known) *)
+Fixpoint node_ifs (n : node) : nat :=
+  match n with
+  | NIf _ t f => S (fold_right (fun x a => node_ifs x + a) O t
+                    + match f with Some l => fold_right (fun x a => node_ifs x + a) O l | None => O end)
+  | _ => O
+  end.
+Definition nodes_ifs (l : list node) : nat := fold_right (fun x a => node_ifs x + a) O l.
+Definition round_bound (tree : list node) : nat := nodes_ifs tree + nodes_consts tree + 1.
+
 Definition fuel_for (tree : list node) : nat := nodes_size tree + nodes_consts tree + 2.
 
 (* the loop, check_leftover_ifs, check_unused_defines (the phases in between do not touch the node list or the
